@@ -30,12 +30,12 @@ THEOREMS = ['Pyiga.Props.C04.' + t for t in (
     'reachable_wf', 'refine_wf', 'tiling', 'selection_rule', 'supp_is_box', 'canonical_order',
     'ravel_strictly_increasing', 'refined_cells_were_active', 'admissible', 'incidence',
     'active_cover_up', 'active_cover_down', 'children_of_deactivated', 'thb_partition_of_unity',
-    'truncation_algebra', 'state_determined_by_deactivated', 'example_history', 'kvEx_good')] + [
+    'truncation_algebra', 'state_determined_by_deactivated', 'linear_independence', 'example_history', 'kvEx_good')] + [
     'Pyiga.Hier.tp_laws', 'Pyiga.Hier.tp_init_ok', 'Pyiga.Hier.tp_lawsAdm', 'Pyiga.Hier.refineLevels_inv',
     'Pyiga.Hier.refineLevels_J', 'Pyiga.Hier.refineCore_eq', 'Pyiga.Hier.incidence_eq']
 MODULES = ['Pyiga.Model.Hier'] + ['Pyiga.Proofs.Hier' + m for m in (
     'Sets', 'Laws', 'Inv', 'Refine', 'TP', 'Order', 'Trunc', 'PU', 'TwoScale', 'AdmLaws', 'Adm', 'TPAdm',
-    'Cover', 'Inc')] + ['Pyiga.Props.C04']
+    'Cover', 'Inc', 'Indep')] + ['Pyiga.Props.C04']
 
 SEGMENTS = ['ret', 'state', 'flatc', 'flatf', 'numdofs', 'aidx', 'didx', 'glob', 'new', 'trunc', 'fsupp', 'csupp',
             'smooth', 'inc', 'mesh', 'fch', 'fpa', 'sup']
